@@ -214,7 +214,7 @@ def _derives_from(f: Func, name: str, root: str, depth: int = 0, seen=None) -> T
 
 
 def rule_b3(ctx, pl: Pipeline) -> None:
-    ctx.rule("C06-B3", "operands of positional joins derive from the same row list without an intervening filter", 3)
+    ctx.rule("C06-B3", "operands of positional joins derive from the same row list without an intervening filter", 2)
     seen = set()
     for st in pl.stages:
         f = st.callee
